@@ -374,8 +374,8 @@ class C19(Prop):
         "connection-per-operation mode (single_connection=False) as SqliteWorkflowStore does by default",
         "pydantic (real, from /venv) decides what assigning an unknown attribute to a model does",
     ]
-    budgets = {"quick": 800, "thorough": 6000}
-    wall = {"quick": 45.0, "thorough": 480.0}
+    budgets = {"quick": 800, "thorough": 2500}
+    wall = {"quick": 45.0, "thorough": 420.0}
 
     def setup(self):
         boot.seed_llama_agents()
